@@ -408,11 +408,16 @@ macro_rules! impl_logical {
 }
 
 macro_rules! impl_cmp {
-    ($func_name:ident, $op:tt) => {
+    ($func_name:ident, $op:tt, $ordering:expr) => {
         #[inline(always)]
         pub fn $func_name(self, rhs: Self, _gc: &mut GC) -> Result<Object, Error> {
             if self.tag() != rhs.tag() {
                 return Err(Error::TypeError(format!("kan objecten met type {} en type {} niet vergelijken", self.tag(), rhs.tag())));
+            }
+
+            // Arrays can not be compared (yet) and functions have no order: that is a type error
+            if self.tag() == Type::Array || ($ordering && self.tag() == Type::Function) {
+                return Err(Error::TypeError(format!("kan objecten van type {} niet vergelijken met {}", self.tag(), stringify!($op))));
             }
 
             // Delegate actual comparison to PartialOrd/PartialEq implementation
@@ -428,12 +433,12 @@ impl Object {
     impl_arith!(div, /, checked_div);
     impl_arith!(rem, %, checked_rem);
 
-    impl_cmp!(gt, >);
-    impl_cmp!(gte, >=);
-    impl_cmp!(lt, <);
-    impl_cmp!(lte, <=);
-    impl_cmp!(eq, ==);
-    impl_cmp!(neq, !=);
+    impl_cmp!(gt, >, true);
+    impl_cmp!(gte, >=, true);
+    impl_cmp!(lt, <, true);
+    impl_cmp!(lte, <=, true);
+    impl_cmp!(eq, ==, false);
+    impl_cmp!(neq, !=, false);
 
     impl_logical!(and, &&);
     impl_logical!(or, ||);
